@@ -4,7 +4,7 @@
 (* the declarative, order-independent one, and every log obeys the source order.         *)
 EXTENDS Integers, Sequences, FiniteSets, TLC
 CONSTANTS N, Edges, EarlyInit
-VARIABLES cfg, order, S
+VARIABLES cfg, order, first, S
 I == INSTANCE Init
 B == 1..N
 BlockCfgs(b) == [restore : {"none", "ok", "noinit", "raise"}, asyn : {"none", "ok", "never"}, dur : {1, 5},
@@ -16,10 +16,13 @@ Init == /\ cfg \in {c \in [B -> UNION {BlockCfgs(b) : b \in B}] :
                       /\ \A b \in B : (c[b].asyn = "none" => (c[b].dur = 1 /\ c[b].tmo = 0))
                       /\ \A b \in B : (c[b].asyn = "never" => c[b].dur = 5)}
         /\ order \in Perms
-        /\ S = I!Run(cfg, order)
-Next == UNCHANGED <<cfg, order, S>>
-Spec == Init /\ [][Next]_<<cfg, order, S>>
-OrderIndependent == I!Success(S) = I!CanInit(cfg)
+        /\ first \in 0..N
+        /\ S = I!RunX(cfg, order, first)
+Next == UNCHANGED <<cfg, order, first, S>>
+Spec == Init /\ [][Next]_<<cfg, order, first, S>>
+OrderIndependent == first = 0 => I!Success(S) = I!CanInit(cfg)
+(* an early event can only help: whatever starts without it starts with it *)
+EarlyEventHarmless == I!Success(I!Run(cfg, order)) => I!Success(S)
 AtMostOnce == I!AtMostOnce(S)
 SourceOrder == I!SourceOrder(S)
 StepsBeforeEvent == I!StepsBeforeEvent(S)
